@@ -433,6 +433,14 @@ func (w *Writer) Write(v interface{}) *Writer {
 		return w
 	}
 
+	// nil 值与 nil 指针无法被写入，返回错误而非在解引用时 panic
+	if rv := reflect.ValueOf(v); !rv.IsValid() || (rv.Kind() == reflect.Ptr && rv.IsNil()) {
+		if _, ok := v.(*[]byte); !ok { // nil *[]byte 按空字节数组写入
+			w.err = fmt.Errorf("cannot write nil value: %T", v)
+			return w
+		}
+	}
+
 	switch val := v.(type) {
 	case *byte:
 		w.writeByte(*val)
@@ -504,6 +512,9 @@ func (w *Writer) Write(v interface{}) *Writer {
 //   - 指针：自动解引用，nil 指针会返回错误
 func (w *Writer) writeReflect(v interface{}) error {
 	rv := reflect.ValueOf(v)
+	if !rv.IsValid() {
+		return fmt.Errorf("cannot write nil value")
+	}
 
 	// 处理指针类型，自动解引用
 	for rv.Kind() == reflect.Ptr {
@@ -541,8 +552,14 @@ func (w *Writer) writeReflect(v interface{}) error {
 		return nil
 
 	default:
-		w.Write(v)
-		return nil
+		// 仅基础类型可交回 Write 处理，其余类型（int、uint、map、chan、func、具名类型等）不受支持，
+		// 若继续交回 Write 会与 writeReflect 无限相互递归直至栈溢出
+		switch val := rv.Interface().(type) {
+		case byte, int8, int16, uint16, uint32, int32, uint64, int64, float32, float64, bool, string:
+			w.Write(val)
+			return w.err
+		}
+		return fmt.Errorf("unsupported type for writing: %T", v)
 	}
 }
 
